@@ -407,6 +407,38 @@ def bounded(pr):
                                 viol.append({'what': '%s %s: %s pI %r is not within %g of the sign change of its curve '
                                                      '(Q(pI-p)=%r, Q(pI+p)=%r)' % (name, opts, nm, x, prec, hh(x - prec, folded),
                                                                                    hh(x + prec, folded)), 'replay': None})
+    # every conformation of one container queried in turn (AVR last and first): each answer is that conformation's own curve
+    multi = ['conf-alt-AB', 'conf-model-mutant'] if pr.tier == 'quick' else ['conf-alt-AB', 'conf-alt-BC', 'conf-model-mutant',
+                                                                           'conf-alt-AB-mutant', '4DFR']
+    for name in multi:
+        mol = native.run_text(native.pdb_lines(name))
+        order = sorted(mol.conformations)
+        for names_in_turn in (order, order[::-1]):
+            for cname in names_in_turn:
+                tg = [g for g in mol.conformations[cname].groups if g.titratable]
+
+                def hh2(ph, folded, tg=tg):
+                    s = 0.0
+                    for g in tg:
+                        e = 10 ** (g.charge * ((g.pka_value if folded else g.model_pka) - ph))
+                        s += g.charge * e / (1 + e)
+                    return s
+                ev += 1
+                distinct.add((name, cname))
+                for ph, qu, qf in mol.get_charge_profile(cname, grid=(0.0, 14.0, 0.5)):
+                    if abs(qu - hh2(ph, False)) > 1e-9 or abs(qf - hh2(ph, True)) > 1e-9:
+                        if len(viol) < 3:
+                            viol.append({'what': '%s: profile of conformation %s (asked after %r on the same container) at pH %r is (%r, %r), '
+                                                 'the sums over its own groups are (%r, %r)' % (
+                                                     name, cname, names_in_turn[:names_in_turn.index(cname)], ph, qu, qf,
+                                                     hh2(ph, False), hh2(ph, True)), 'replay': None})
+                        break
+                pif, piu = mol.get_pi(cname, grid=(0.0, 14.0), precision=1e-6)
+                for x, folded, nm in ((pif, True, 'folded'), (piu, False, 'unfolded')):
+                    if hh2(0.0, folded) > 0 > hh2(14.0, folded) and not (hh2(x - 1e-6, folded) >= 0 >= hh2(x + 1e-6, folded)):
+                        if len(viol) < 3:
+                            viol.append({'what': '%s: %s pI %r of conformation %s (asked after %r) is not at the sign change of its own curve'
+                                         % (name, nm, x, cname, names_in_turn[:names_in_turn.index(cname)]), 'replay': None})
     pr.bounded.append({'name': 'C09-monitor: charge profile and pI vs independent Henderson-Hasselbalch evaluation',
                        'evaluations': ev, 'distinct_nontrivial': len(distinct),
                        'bound': '%d structures x {all groups, 3 listed groups} x %d grids, 4 pI windows/precisions (down to 1e-10)' % (len(names), len(grids)),
